@@ -34,9 +34,10 @@ def elemBits : ArrT → Nat
 def code (t : ArrT) : Nat := (all.idxOf t)
 end ArrT
 
-/-- `common.ElementCountToByteCount`. -/
+/-- `common.ElementCountToByteCount` in uint64 arithmetic: (count·bits mod 2^64)/8, plus one
+    for a bit array whose count is not a multiple of 8. -/
 def elemsToBytes (bits count : Nat) : Nat :=
-  if bits = 1 then (count + 7) / 8 else count * (bits / 8)
+  (count * bits) % 2 ^ 64 / 8 + (if bits = 1 ∧ count % 8 ≠ 0 then 1 else 0)
 
 /-- compact_float.DFloat -/
 inductive DF
